@@ -508,11 +508,15 @@ pub fn gen_keys(rng: &mut Rng, n: usize) -> (Vec<Vec<u8>>, String) {
                     break;
                 }
                 let mut k = if rng.chance(1, 4) {
-                    base[..rng.urange(0, 20)].to_vec()
+                    {
+                    let l = rng.urange(0, 20);
+                    base[..l].to_vec()
+                }
                 } else {
                     vec![]
                 };
-                k.extend(rng.bytes(rng.urange(0, 6)));
+                let l = rng.urange(0, 6);
+                k.extend(rng.bytes(l));
                 set.insert(k);
             }
         }
@@ -536,7 +540,7 @@ pub fn gen_keys(rng: &mut Rng, n: usize) -> (Vec<Vec<u8>>, String) {
                 let len = rng.urange(0, 8);
                 let mut s = String::new();
                 for _ in 0..len {
-                    s.push_str(rng.pick(CH));
+                    s.push_str(*rng.pick(CH));
                 }
                 set.insert(s.into_bytes());
             }
@@ -677,7 +681,8 @@ pub fn gen_probes(rng: &mut Rng, keys: &[Vec<u8>], edges: &[usize], count: usize
     }
     for _ in 0..count {
         if keys.is_empty() {
-            out.push(rng.bytes(rng.urange(0, 6)));
+            let l = rng.urange(0, 6);
+            out.push(rng.bytes(l));
             continue;
         }
         let idx = if !edges.is_empty() && rng.chance(2, 3) {
